@@ -24,34 +24,42 @@ SHARD_TIMEOUT = 600
 LEVEL_TEXT = ("Coq theorems over an exact-rational executable model of the genomic-model classes: every entry of gebv/gegv/predict is "
               "intercept + dosage (and heterozygosity) x effects; equivariance of values and labels under any taxon reordering; additivity over "
               "marker partitions and chromosome phases; var_A/var_G are the population variance of the reported values and order-invariant; "
-              "var_a/bulmer/score equal their definitions (NaN branch characterised); the twelve fa*/da*/na* tables are entry-wise their definitions "
-              "and mutually consistent; Gauss-Seidel is coordinate descent, so the rrBLUP fit is never worse than the all-zero solution on the "
+              "var_a/bulmer/score equal their definitions (NaN branch characterised); scaling the effects of a trait by c scales var_A and var_a by "
+              "c^2 and leaves the Bulmer ratio unchanged for every c != 0 (exactly zero is the only special value); the dominance design of a raw "
+              "dosage array handed over with its ploidy equals that of the matrix object for every ploidy; the twelve fa*/da*/na* tables are "
+              "entry-wise their definitions for every class and mutually consistent; Gauss-Seidel is coordinate descent, so the rrBLUP fit is never worse than the all-zero solution on the "
               "penalised criterion for every training set/ridge/tolerance/iteration limit, intercept = mean, monomorphic markers exactly 0, and the "
               "normal-equation residual is bounded by atol*sum_{j>i}|A_ij| whenever the loop stops before maxiter. The model is tied to the code by "
-              "evaluating it inside Coq against the implementation's outputs (exact equality for the linear part and counts, 2^-30 tolerance for "
-              "variances/ratios/solver output) on generated models, genotype inputs in three representations, permutations and partitions")
+              "evaluating it inside Coq against the implementation's outputs (exact equality for the linear part and counts; variances and Bulmer "
+              "ratios within 2^-30 RELATIVE, so that a model value of exactly zero or NaN demands exactly zero or NaN; breeding value matrices "
+              "within 2^-30 of the largest magnitude of their trait column; 2^-30(1+|x|) for scores and solver output) on generated models, genotype inputs in three representations, permutations and partitions")
 LEVEL_NOTE = ("trusted: Coq kernel + vm_compute (no axioms: Print Assumptions reports 'Closed under the global context' for every theorem); "
               "NOT modelled: Nelder-Mead/eigh of rrBLUP_ML0 (the ridge parameter varE/varU is read back from the implementation and the clauses of "
               "the property are evaluated exactly in Q on the implementation's (beta, u)); the standardisation inside "
               "DenseBreedingValueMatrix.from_numpy is observed only through unscale()/location/labels; binary64 rounding is not modelled (inputs on "
-              "dyadic grids make the linear part exact; everything else is compared within 2^-30(1+|x|)); theorems are about the Gallina model, "
+              "dyadic grids, also after scaling a trait by a power of two, make the linear part exact; the other statistics are compared within a "
+              "2^-30 relative / column-relative / 2^-30(1+|x|) tolerance); theorems are about the Gallina model, "
               "the tie to the code is differential on generated inputs")
 TECHNIQUE = "Coq proof over an executable exact-rational model; in-Coq vm_compute correspondence with the implementation"
 RULE = ("three kinds of case from one PRNG. lin: class in {additive, additive+dominance, rrBLUPModel0 as container, DenseLinearGenomicModel via a "
         "stub subclass}, beta (1-4 fixed effects) / u_misc (0-2) / u_a / u_d on the grid k/8 with exact zeros, zero rows and all-zero matrices, 1-3 traits, "
         "ploidy 1-4, 1-8 taxa (1-24 in thorough) x 1-6 markers (1-16) with columns forced absent / fixed / single-copy / all-heterozygous / polymorphic, "
         "duplicate taxa, optional phased representation, optional/duplicated taxon labels and groups, a taxon permutation, a marker split point, "
-        "constant phenotypes (SST = 0), raw-array ploidy argument given or defaulted; plus fixed populations at the sizes 49/98/103/107 where "
+        "constant phenotypes (SST = 0), raw-array ploidy argument given or defaulted (handed to var_a/bulmer and to the dominance model's "
+        "gegv/predict/score/var_G); in 35% of the cases further traits are appended and the traits shuffled: a copy of a trait with intercepts, "
+        "effects and phenotypes times 2^e, e in {-12,-20,-40,+20}, sometimes an independent trait at such a scale and an all-zero trait (the "
+        "predicate then also states var(scaled) = 4^e var, bulmer and score unchanged); plus fixed populations at the sizes 49/98/103/107 where "
         "(1/N)*N != 1. gs: gauss_seidel on 1-4 unknowns (SPD Z'Z+ridge I, symmetric, general, diagonal, occasional zero pivot), atol in "
         "{0, 2^-20..1, 1e-8}, maxiter 0-6. fit: rrBLUPModel0.fit_numpy/fit (ndarray, GenotypeMatrix, BreedingValueMatrix inputs) on 3-9 records x 1-4 "
-        "markers, 1-2 traits, monomorphic columns at 0/1/2, duplicated polymorphic markers, traits determined exactly by a marker. "
+        "markers, 1-2 traits, monomorphic columns at 0/1/2, duplicated polymorphic markers, traits determined exactly by a marker, 20% with the "
+        "responses times 2^-12 or 2^8. "
         "non-trivial = lin: >= 2 taxa, a polymorphic marker, at least two of the three effect signs, non-identity permutation; gs: >= 2 unknowns, "
         ">= 2 sweeps allowed, atol > 0, b != 0; fit: a polymorphic marker and n > p_polymorphic. distinct by SHA-256 of the case")
 TRUSTED = ["scipy.optimize.minimize (Nelder-Mead) and numpy.linalg.eigh inside rrBLUP_ML0 are not modelled: varE, varU are taken from the implementation",
-           "numpy float64 matmul/sum on dyadic-grid inputs is exact (regime E); var/std/division are compared within 2^-30 (regime T)",
+           "numpy float64 matmul/sum on dyadic-grid inputs (times a power of two per trait) is exact (regime E); var/std/division are compared within 2^-30 relative or 2^-30(1+|x|) (regime T)",
            "DenseLinearGenomicModel is abstract in /repo: it is exercised through a subclass created by the harness that only empties __abstractmethods__",
            "classification of C04-gs-maxiter uses a reference float Gauss-Seidel loop in the harness to decide whether the specified algorithm itself needs more than 1000 sweeps"]
-ASSUMPTIONS = ["effects/covariates/phenotypes on dyadic grids (k/8, k/4), dosages in 0..ploidy stored as int8, at least one taxon, one marker, one fixed effect",
+ASSUMPTIONS = ["effects/covariates/phenotypes on dyadic grids (k/8, k/4), per trait optionally times 2^e with -40 <= e <= 20 (no underflow/overflow), dosages in 0..ploidy stored as int8, at least one taxon, one marker, one fixed effect",
                "rrBLUP training sets have at least one polymorphic marker and no constant response (outside the property's quantifier otherwise)",
                "the ridge parameter is positive (varE, varU are exponentials of the optimiser's result)"]
 
@@ -164,6 +172,7 @@ def _run_fmt(case, m, gt, fmt, perm=None):
     raw = fmt == "raw"
     pl = case["ploidy_arg"]
     kw = {"ploidy": pl} if (raw and pl is not None) else {}
+    kwd = kw if case["cls"] == "AD" else {}       # gegv/predict/score/var_G of the dominance model take the ploidy of a raw array
     R = {}
     with numpy.errstate(all="ignore"):
         R["gebv_numpy"] = _try(lambda: _hx(m.gebv_numpy(dos)))
@@ -175,17 +184,17 @@ def _run_fmt(case, m, gt, fmt, perm=None):
             else:
                 Zg = dos
             R["gegv_numpy"] = _try(lambda: _hx(m.gegv_numpy(Zg)))
-            R["gegv"] = _try(lambda: _bv(m.gegv(gt)))
+            R["gegv"] = _try(lambda: _bv(m.gegv(gt, **kwd)))
         else:
             Zg = dos
         Zfull = numpy.concatenate([Zm, Zg], axis=1)
         R["predict_numpy"] = _try(lambda: _hx(m.predict_numpy(X, Zfull)))
-        R["predict"] = _try(lambda: _bv(m.predict(X, gt)))
+        R["predict"] = _try(lambda: _bv(m.predict(X, gt, **kwd)))
         R["score_numpy"] = _try(lambda: _hx(m.score_numpy(Y, X, Zfull)))
-        R["score"] = _try(lambda: _hx(m.score(Y, X, gt)))
-        R["score_bv"] = _try(lambda: _hx(m.score(DenseBreedingValueMatrix.from_numpy(Y), X, gt)))
+        R["score"] = _try(lambda: _hx(m.score(Y, X, gt, **kwd)))
+        R["score_bv"] = _try(lambda: _hx(m.score(DenseBreedingValueMatrix.from_numpy(Y), X, gt, **kwd)))
         R["var_A"] = _try(lambda: _hx(m.var_A(gt)))
-        R["var_G"] = _try(lambda: _hx(m.var_G(gt)))
+        R["var_G"] = _try(lambda: _hx(m.var_G(gt, **kwd)))
         R["var_a"] = _try(lambda: _hx(m.var_a(gt, **kw)))
         R["bulmer"] = _try(lambda: _hx(m.bulmer(gt, **kw)))
         R["var_A_numpy"] = _try(lambda: _hx(m.var_A_numpy(dos)))
@@ -296,15 +305,15 @@ def _gen_lin(rng, big=False, cls=None):
     cls = cls or rng.choice(["A", "A", "AD", "AD", "RR", "L"])
     n = rng.choice([1, 1, 2, 2, 3, 4, 5, 6, 7, 8]) if not big else rng.randint(1, 24)
     p = rng.choice([1, 2, 3, 3, 4, 5, 6]) if not big else rng.randint(1, 16)
-    t = rng.choice([1, 1, 2, 3])
+    multiscale = rng.random() < 0.35          # extra traits at scales far from 1 are appended below
+    t = rng.choice([1, 1, 2, 3]) if not multiscale else rng.choice([1, 1, 2])
     q = rng.choice([1, 1, 1, 2, 3, 4])
     pm = rng.choice([0, 0, 0, 0, 1, 2]) if cls != "L" else 0
     ploidy = rng.choice([1, 2, 2, 2, 2, 3, 4])
     # marker effects: any sign pattern, exact zeros, whole-zero rows/columns now and then
-    u_a = _gmat(rng, p, t, pzero=(0.25 if cls != "L" else rng.choice([0.0, 0.0, 0.25])))
-    if cls != "L" or any(x == 0.0 for r in u_a for x in r):
-        if rng.random() < 0.15: u_a = [[0.0] * t for _ in range(p)]
-        if rng.random() < 0.15: u_a[rng.randrange(p)] = [0.0] * t
+    u_a = _gmat(rng, p, t, pzero=0.25)
+    if rng.random() < 0.15: u_a = [[0.0] * t for _ in range(p)]
+    if rng.random() < 0.15: u_a[rng.randrange(p)] = [0.0] * t
     u_d = None
     if cls == "AD":
         u_d = None if rng.random() < 0.15 else _gmat(rng, p, t)
@@ -346,9 +355,38 @@ def _gen_lin(rng, big=False, cls=None):
     perm = list(range(n)); rng.shuffle(perm)
     split = rng.randint(0, p)
     ploidy_arg = None if rng.random() < 0.25 else ploidy
-    return {"kind": "lin", "cls": cls, "beta": beta, "u_misc": u_misc, "u_a": u_a, "u_d": u_d, "trait": trait, "ploidy": ploidy,
+    case = {"kind": "lin", "cls": cls, "beta": beta, "u_misc": u_misc, "u_a": u_a, "u_d": u_d, "trait": trait, "ploidy": ploidy,
             "phased": ph, "dos": dos, "taxa": taxa, "taxa_grp": taxa_grp, "X": X, "Zm": Zm, "Y": Y, "perm": perm, "split": split,
             "ploidy_arg": ploidy_arg}
+    if multiscale: _add_scaled_traits(rng, case)
+    return case
+
+SCALE_EXP = [-12, -20, -40, 20]      # powers of two: a scaled trait stays on a dyadic grid, the exact regime applies
+
+def _add_scaled_traits(rng, case):
+    """append to the model (i) a copy of one of its traits with intercepts, effects and phenotypes multiplied by 2^e, (ii) now and
+    then an independent trait generated on the ordinary grid and then multiplied by 2^e, (iii) now and then an all-zero trait;
+    shuffle the traits; record the (base, copy, e) triples under "scaled" for the scale-covariance clauses of the predicate"""
+    mats = [k for k in ("beta", "u_misc", "u_a", "u_d", "Y") if case.get(k)]
+    t = len(case["beta"][0])
+    cols = [{k: [r[j] for r in case[k]] for k in mats} for j in range(t)]
+    tags = [("ord", j) for j in range(t)]
+    kb = rng.randrange(t); e = rng.choice(SCALE_EXP)
+    cols.append({k: [x * 2.0 ** e for x in cols[kb][k]] for k in mats}); tags.append(("copy", kb, e))
+    if rng.random() < 0.4:
+        e2 = rng.choice(SCALE_EXP)
+        cols.append({k: [_g(rng, pzero=(0.05 if k == "Y" else 0.25)) * 2.0 ** e2 for _ in cols[0][k]] for k in mats}); tags.append(("tiny", e2))
+    if rng.random() < 0.6:
+        ey = rng.choice([0, 0, -20])
+        cols.append({k: ([_g(rng, pzero=0.05) * 2.0 ** ey for _ in cols[0][k]] if k == "Y" else [0.0] * len(cols[0][k])) for k in mats}); tags.append(("zero",))
+    order = list(range(len(cols))); rng.shuffle(order)
+    cols = [cols[i] for i in order]; tags = [tags[i] for i in order]
+    pos = {i: j for j, i in enumerate(order)}                  # old index -> new index
+    for k in mats:
+        case[k] = [[c[k][r] for c in cols] for r in range(len(cols[0][k]))]
+    case["scaled"] = [[pos[tg[1]], j, tg[2]] for j, tg in enumerate(tags) if tg[0] == "copy"]
+    case["trait_kinds"] = [tg[0] for tg in tags]
+    if case["trait"] is not None: case["trait"] = ["tr%d" % i for i in rng.sample(range(20), len(cols))]
 
 # ------------------------------------------------------------------------------------------------ independent predicate
 def _FM(x):
@@ -357,6 +395,31 @@ def _FM(x):
 def _close(a, b, tol=EPS40):
     """a: Fraction or None (non-finite), b: exact Fraction"""
     return a is not None and abs(a - b) <= tol * (1 + abs(b))
+
+RTOL = F(1, 2 ** 36)
+
+def _rclose(a, b, tol=RTOL):
+    """scale-free closeness |a - b| <= 2^-36 |b|: an exact value of zero demands exactly zero, a tiny one is not zero"""
+    return a is not None and abs(a - b) <= tol * abs(b)
+
+def _vec_rclose(H, V):
+    return isinstance(H, list) and len(H) == len(V) and all(_rclose(_fr(h), v) for h, v in zip(H, V))
+
+def _bv_scale(case, M):
+    """scale of each trait column of a breeding value matrix: largest magnitude among its values plus the magnitudes of the trait's
+    fixed effects (the location X* @ beta is rounded at the size of its terms, which may cancel)"""
+    t = len(M[0]) if M else 0
+    return [max(abs(r[k]) for r in M) + sum((abs(F(b[k])) for b in case["beta"]), F(0)) for k in range(t)]
+
+def _mat_sclose(H, M, sc):
+    """every entry within 2^-36 of the scale of its column (each trait at its own scale, an all-zero trait exactly)"""
+    if not isinstance(H, list) or len(H) != len(M): return False
+    for hr, mr in zip(H, M):
+        if len(hr) != len(mr): return False
+        for k, (h, v) in enumerate(zip(hr, mr)):
+            x = _fr(h)
+            if x is None or abs(x - v) > RTOL * sc[k]: return False
+    return True
 
 def _mat_close(H, M, exact):
     """H: 2-D list of hex strings (implementation), M: 2-D list of Fractions (definition)"""
@@ -378,8 +441,9 @@ def _popvar(col):
     n = len(col); mu = sum(col, F(0)) / n
     return sum(((x - mu) ** 2 for x in col), F(0)) / n
 
-def _defs(case, perm=None, ploidy_for_raw=None, raw_het=False, asis_L=False):
-    """the textbook definitions, evaluated with exact rationals on the inputs of the case"""
+def _defs(case, perm=None, ploidy_for_raw=None, het_ploidy=None):
+    """the textbook definitions, evaluated with exact rationals on the inputs of the case; het_ploidy: the ploidy under which
+    heterozygosity is read (the matrix's own; for a raw array the ploidy keyword, 2 when it is not given)"""
     n = len(case["dos"]); p = len(case["u_a"]); t = len(case["beta"][0]); q = len(case["beta"])
     pm = 0 if case["u_misc"] is None else len(case["u_misc"])
     dos = [list(r) for r in case["dos"]]; X = _FM(case["X"]); Zm = _FM(case["Zm"]); Y = _FM(case["Y"])
@@ -390,8 +454,8 @@ def _defs(case, perm=None, ploidy_for_raw=None, raw_het=False, asis_L=False):
     ud = None
     if case["cls"] == "AD":
         ud = _FM(case["u_d"]) if case["u_d"] is not None else [[F(0)] * t for _ in range(p)]
-    het = [[1 if (d != 0 and d != ploidy) else 0 for d in r] for r in dos]
-    if raw_het: het = [[1 if d == 1 else 0 for d in r] for r in dos]          # as coded for raw arrays: heterozygous <=> dosage == 1
+    hp = ploidy if het_ploidy is None else het_ploidy
+    het = [[1 if (d != 0 and d != hp) else 0 for d in r] for r in dos]
     D = {}
     D["loc"] = [beta[0][k] + sum((beta[r][k] for r in range(1, q)), F(0)) / q for k in range(t)]
     D["bv0"] = [[sum((dos[i][j] * ua[j][k] for j in range(p)), F(0)) for k in range(t)] for i in range(n)]          # Z u_a
@@ -416,9 +480,6 @@ def _defs(case, perm=None, ploidy_for_raw=None, raw_het=False, asis_L=False):
     sg = [[(ua[j][k] > 0) - (ua[j][k] < 0) for k in range(t)] for j in range(p)]
     fa = [[c[j] if sg[j][k] > 0 else (N - c[j] if sg[j][k] < 0 else 0) for k in range(t)] for j in range(p)]
     da = [[c[j] if sg[j][k] < 0 else (N - c[j] if sg[j][k] > 0 else 0) for k in range(t)] for j in range(p)]
-    if asis_L:      # DenseLinearGenomicModel as coded: no reset of neutral alleles, availability tested with != 0
-        fa = [[c[j] if sg[j][k] > 0 else N - c[j] for k in range(t)] for j in range(p)]
-        da = [[c[j] if sg[j][k] < 0 else N - c[j] for k in range(t)] for j in range(p)]
     D["facount"] = fa; D["dacount"] = da
     D["fafreq"] = [[F(x, N) for x in r] for r in fa]; D["dafreq"] = [[F(x, N) for x in r] for r in da]
     D["faavail"] = [[x > 0 for x in r] for r in fa]; D["daavail"] = [[x > 0 for x in r] for r in da]
@@ -433,7 +494,8 @@ def _check_bv(bad, tag, bv, want, case, gtfmt, perm=None):
     if not isinstance(bv, dict) or "exc" in bv:
         bad.append("%s raised %s" % (tag, bv.get("exc") if isinstance(bv, dict) else bv)); return
     if bv["cls"] != "DenseGenomicEstimatedBreedingValueMatrix": bad.append("%s is a %s" % (tag, bv["cls"]))
-    if not _mat_close(bv["mat"], want, False): bad.append("%s != intercept + dosage x effects" % tag)
+    sc = _bv_scale(case, want)
+    if not _mat_sclose(bv["mat"], want, sc): bad.append("%s != intercept + dosage x effects" % tag)
     taxa, grp = case["taxa"], case["taxa_grp"]
     if perm is not None:
         taxa = None if taxa is None else [taxa[i] for i in perm]
@@ -445,9 +507,11 @@ def _check_bv(bad, tag, bv, want, case, gtfmt, perm=None):
     n = len(want); t = len(want[0]) if n else 0
     if n:
         mean = [sum((want[i][k] for i in range(n)), F(0)) / n for k in range(t)]
-        if not _vec_close(bv["location"], mean): bad.append("%s location is not the mean value" % tag)
+        loc = bv["location"]
+        if not (isinstance(loc, list) and len(loc) == t and all(_fr(h) is not None and abs(_fr(h) - mean[k]) <= RTOL * sc[k] for k, h in enumerate(loc))):
+            bad.append("%s location is not the mean value" % tag)
 
-def _pred_fmt(bad, case, R, fmt, D, tagp, perm=None, asis=()):
+def _pred_fmt(bad, case, R, fmt, D, tagp, perm=None):
     cls = case["cls"]; raw = fmt == "raw"
     pm = 0 if case["u_misc"] is None else len(case["u_misc"])
     tag = lambda s: "%s%s[%s]" % (tagp, s, fmt)
@@ -473,20 +537,40 @@ def _pred_fmt(bad, case, R, fmt, D, tagp, perm=None, asis=()):
                 if x is not None: bad.append(tag(nm) + " finite although the total sum of squares is zero")
             elif not _close(x, sc[k]): bad.append(tag(nm) + " != 1 - SSE/SST")
     for nm in ("var_A", "var_A_numpy"):
-        if not _vec_close(R[nm], D["var_A"]): bad.append(tag(nm) + " != population variance of the breeding values")
+        if not _vec_rclose(R[nm], D["var_A"]): bad.append(tag(nm) + " != population variance of the breeding values")
     for nm in ("var_G", "var_G_numpy"):
-        if not _vec_close(R[nm], var_G if nm == "var_G" else D0["var_G"]): bad.append(tag(nm) + " != population variance of the genotypic values")
+        if not _vec_rclose(R[nm], var_G if nm == "var_G" else D0["var_G"]): bad.append(tag(nm) + " != population variance of the genotypic values")
     va = D["var_a_raw"] if raw else D["var_a"]
-    if not _vec_close(R["var_a"], va): bad.append(tag("var_a") + " != ploidy^2 sum u^2 p(1-p)")
+    if not _vec_rclose(R["var_a"], va): bad.append(tag("var_a") + " != ploidy^2 sum u^2 p(1-p)")
     H = R["bulmer"]
     if not isinstance(H, list): bad.append(tag("bulmer") + " raised")
     else:
         for k, h in enumerate(H):
             x = _fr(h)
             if va[k] == 0:
-                if "L-recip" in asis and raw: continue
                 if not math.isnan(_fh(h)): bad.append(tag("bulmer") + " is not NaN although the genic variance is zero")
-            elif not _close(x, D["var_A"][k] / va[k]): bad.append(tag("bulmer") + " != var_A / var_a")
+            elif not _rclose(x, D["var_A"][k] / va[k]): bad.append(tag("bulmer") + " != var_A / var_a")
+    # scale covariance, stated directly on the outputs: a trait whose intercepts, effects and phenotypes are 2^e times those of
+    # another trait has 4^e times its variances and the same Bulmer ratio (NaN for NaN) and coefficient of determination
+    for kb, kc, e in case.get("scaled", []):
+        c2 = F(4) ** e
+        for nm in ("var_A", "var_A_numpy", "var_G", "var_G_numpy", "var_a"):
+            H = R[nm]
+            if not isinstance(H, list): continue
+            a, b = _fr(H[kc]), _fr(H[kb])
+            if a is None or b is None or not _rclose(a, c2 * b):
+                bad.append(tag(nm) + " of a trait scaled by 2^%d is not 4^%d times that of the unscaled trait" % (e, e))
+        H = R["bulmer"]
+        if isinstance(H, list):
+            a, b = _fr(H[kc]), _fr(H[kb])
+            if (a is None) != (b is None) or (a is not None and not _rclose(a, b)):
+                bad.append(tag("bulmer") + " changes when the trait is scaled by 2^%d" % e)
+        for nm in ("score_numpy", "score", "score_bv") if pm == 0 else ("score_numpy",):
+            H = R[nm]
+            if not isinstance(H, list): continue
+            a, b = _fr(H[kc]), _fr(H[kb])
+            if (a is None) != (b is None) or (a is not None and not _close(a, b)):
+                bad.append(tag(nm) + " changes when the trait is scaled by 2^%d" % e)
     if not raw:
         for f in (COUNTS if cls != "L" else L_COUNTS):
             want = D[f]
@@ -494,25 +578,24 @@ def _pred_fmt(bad, case, R, fmt, D, tagp, perm=None, asis=()):
             if isinstance(got, dict): bad.append(tag(f) + " raised"); continue
             if "freq" in f:
                 if not _mat_close(got, want, False): bad.append(tag(f) + " != count / (ploidy * ntaxa)")
-            elif "L-neutral" in asis and "avail" in f:
-                if got != [[x != 0 for x in r] for r in D[f[:2] + "count"]]: bad.append(tag(f) + " differs from count != 0")
             elif got != [[(bool(x) if isinstance(x, bool) else x) for x in r] for r in want]:
                 bad.append(tag(f) + " differs from its definition")
 
-def _pred_lin(case, out, asis=()):
-    """asis: names of known deviations whose as-coded semantics replace the property's definition (used by classify only)"""
+def _pred_lin(case, out):
     bad = []
-    aL = "L-neutral" in asis
-    D = _defs(case, None, case["ploidy_arg"], asis_L=aL)
-    Dp = _defs(case, case["perm"], case["ploidy_arg"], asis_L=aL)
+    D = _defs(case, None, case["ploidy_arg"])
+    Dp = _defs(case, case["perm"], case["ploidy_arg"])
     Dr, Dpr = D, Dp
-    if "AD-raw" in asis:
-        Dr = _defs(case, None, case["ploidy_arg"], raw_het=True); Dpr = _defs(case, case["perm"], case["ploidy_arg"], raw_het=True)
+    rp = case["ploidy_arg"] if case["ploidy_arg"] is not None else 2
+    if case["cls"] == "AD" and rp != case["ploidy"]:
+        # a raw array carries no ploidy: it is read under the ploidy keyword (2 when none is given), exactly like a matrix
+        # object of that ploidy; whenever the keyword states the data's ploidy the raw array must agree with the matrix objects
+        Dr = _defs(case, None, case["ploidy_arg"], het_ploidy=rp); Dpr = _defs(case, case["perm"], case["ploidy_arg"], het_ploidy=rp)
         Dr["_obj"] = D; Dpr["_obj"] = Dp
     for fmt, R in out["fmt"].items():
-        _pred_fmt(bad, case, R, fmt, Dr if fmt == "raw" else D, "", None, asis)
+        _pred_fmt(bad, case, R, fmt, Dr if fmt == "raw" else D, "", None)
     for fmt, R in out["perm"].items():
-        _pred_fmt(bad, case, R, fmt, Dpr if fmt == "raw" else Dp, "permuted ", case["perm"], asis)
+        _pred_fmt(bad, case, R, fmt, Dpr if fmt == "raw" else Dp, "permuted ", case["perm"])
     # equivariance stated directly between the two runs: exact for the raw products
     f0 = "unphased"
     a, b = out["fmt"][f0]["gebv_numpy"], out["perm"][f0]["gebv_numpy"]
@@ -584,23 +667,24 @@ def _emit_fmt(case, R, fmt, pfx, parts):
     lab, X, Zm, Y = pfx + "lab", pfx + "X", pfx + "Zm", pfx + "Y"
     pl = case["ploidy_arg"]
     arg = E.opt(pl if raw else None, E.z)
+    darg = arg if cls == "AD" else "None"      # the ploidy keyword handed to gegv/predict/score/var_G (dominance model, raw array)
     parts.append("agree_E %s (gebv_numpy g (dosage %s))" % (_impl_mat(R["gebv_numpy"]), gt))
-    parts.append("agree_bv %d %s (gebv g %s %s)" % (t, _impl_bv(R["gebv"]), gt, lab))
+    parts.append("agree_bv g %s (gebv g %s %s)" % (_impl_bv(R["gebv"]), gt, lab))
     if cls != "L":
         # the harness hands gegv_numpy the matrix-object design (dosage, (A != 0) & (A != ploidy)) for every representation
-        parts.append("agree_E %s (gegv_numpy g (design g %sgt_unphased))" % (_impl_mat(R["gegv_numpy"]), pfx))
-        parts.append("agree_bv %d %s (gegv g %s %s)" % (t, _impl_bv(R["gegv"]), gt, lab))
-    parts.append("agree_E %s (predict_numpy g %s (hcat %s (qz (design g %sgt_unphased))))" % (_impl_mat(R["predict_numpy"]), X, Zm, pfx))
-    parts.append("agree_bv %d %s (predict g %s %s %s)" % (t, _impl_bv(R["predict"]), X, gt, lab))
-    parts.append("agree_To %s (score_numpy g %s %s (hcat %s (qz (design g %sgt_unphased))))" % (_impl_ovec(R["score_numpy"]), Y, X, Zm, pfx))
-    parts.append("agree_To %s (score g %s %s %s)" % (_impl_ovec(R["score"]), Y, X, gt))
-    parts.append("agree_To %s (score g %s %s %s)" % (_impl_ovec(R["score_bv"]), Y, X, gt))
-    parts.append("agree_Tl %s (var_A g %s)" % (_impl_vec(R["var_A"]), gt))
-    parts.append("agree_Tl %s (var_G g %s)" % (_impl_vec(R["var_G"]), gt))
-    parts.append("agree_Tl %s (var_A g %s)" % (_impl_vec(R["var_A_numpy"]), gt))
-    parts.append("agree_Tl %s (var_G g %sgt_unphased)" % (_impl_vec(R["var_G_numpy"]), pfx))
-    parts.append("agree_Tl %s (Some (var_a g %s %s))" % (_impl_vec(R["var_a"]), gt, arg))
-    parts.append("agree_To %s (bulmer g %s %s)" % (_impl_ovec(R["bulmer"]), gt, arg))
+        parts.append("agree_E %s (gegv_numpy g (design g %sgt_unphased None))" % (_impl_mat(R["gegv_numpy"]), pfx))
+        parts.append("agree_bv g %s (gegv g %s %s %s)" % (_impl_bv(R["gegv"]), gt, darg, lab))
+    parts.append("agree_E %s (predict_numpy g %s (hcat %s (qz (design g %sgt_unphased None))))" % (_impl_mat(R["predict_numpy"]), X, Zm, pfx))
+    parts.append("agree_bv g %s (predict g %s %s %s %s)" % (_impl_bv(R["predict"]), X, gt, darg, lab))
+    parts.append("agree_To %s (score_numpy g %s %s (hcat %s (qz (design g %sgt_unphased None))))" % (_impl_ovec(R["score_numpy"]), Y, X, Zm, pfx))
+    parts.append("agree_To %s (score g %s %s %s %s)" % (_impl_ovec(R["score"]), Y, X, gt, darg))
+    parts.append("agree_To %s (score g %s %s %s %s)" % (_impl_ovec(R["score_bv"]), Y, X, gt, darg))
+    parts.append("agree_Rl %s (var_A g %s)" % (_impl_vec(R["var_A"]), gt))
+    parts.append("agree_Rl %s (var_G g %s %s)" % (_impl_vec(R["var_G"]), gt, darg))
+    parts.append("agree_Rl %s (var_A g %s)" % (_impl_vec(R["var_A_numpy"]), gt))
+    parts.append("agree_Rl %s (var_G g %sgt_unphased None)" % (_impl_vec(R["var_G_numpy"]), pfx))
+    parts.append("agree_Rl %s (Some (var_a g %s %s))" % (_impl_vec(R["var_a"]), gt, arg))
+    parts.append("agree_Ro %s (bulmer g %s %s)" % (_impl_ovec(R["bulmer"]), gt, arg))
     if not raw:
         for f in (COUNTS if cls != "L" else L_COUNTS):
             v = R[f]
@@ -650,8 +734,8 @@ def _emit_lin(case, out):
     if "part_g" in out:
         a, b = out["part_g"]
         if isinstance(a, dict) or isinstance(b, dict): parts.append("false")
-        else: parts.append("agree_E (Some (madd %s %s)) (gegv_numpy g (design g gt_unphased))" % (E.lst2(a, _qh), E.lst2(b, _qh)))
-    parts.append("agree_bv %d %s (tbv_estimate g gt_%s lab)" % (t, _impl_bv(out["tbv"]), out["tbv_fmt"]))
+        else: parts.append("agree_E (Some (madd %s %s)) (gegv_numpy g (design g gt_unphased None))" % (E.lst2(a, _qh), E.lst2(b, _qh)))
+    parts.append("agree_bv g %s (tbv_estimate g gt_%s lab)" % (_impl_bv(out["tbv"]), out["tbv_fmt"]))
     parts.append(E.b(out["unchanged"]))
     body = "(" + "\n   && ".join(parts) + ")"
     for nm, v in reversed(lets):
@@ -753,7 +837,12 @@ def _gen_fit(rng, big=False):
     for k in range(t):                                       # a constant response has no variance to fit
         if all(Y[i][k] == Y[0][k] for i in range(n)): Y[0][k] += 0.5
     trait = None if rng.random() < 0.5 else ["tr%d" % i for i in range(t)]
-    return {"kind": "fit", "Y": Y, "Z": Z, "trait": trait, "via": rng.choice(["fit_numpy", "fit_numpy", "fit", "fit_raw", "fit_bv"]), "ploidy": ploidy}
+    yscale = 0
+    if rng.random() < 0.2:                                   # responses at another scale (powers of two: still dyadic)
+        yscale = rng.choice([-12, 8])
+        Y = [[v * 2.0 ** yscale for v in r] for r in Y]
+    return {"kind": "fit", "Y": Y, "Z": Z, "trait": trait, "via": rng.choice(["fit_numpy", "fit_numpy", "fit", "fit_raw", "fit_bv"]), "ploidy": ploidy,
+            "yscale": yscale}
 
 GS_ATOL = 1e-8
 GS_MAXITER = 1000
@@ -848,19 +937,7 @@ def classify(case, out, clauses):
             mask, Zp, pp, mu, yc, ridge, A, b = _fit_parts(case, out, k)
             if any("(trait %d)" % k in c for c in clauses) and not _gs_ran_out(A, b): return None
         return "C04-gs-maxiter"
-    if case["kind"] == "lin":
-        cls = case["cls"]
-        if cls == "AD" and case["ploidy"] != 2 and all("[raw]" in c for c in clauses):
-            return "C04-dominance-raw-diploid" if not _pred_lin(case, out, asis=("AD-raw",)) else None
-        if cls == "L":
-            zero = any(x == 0 for r in case["u_a"] for x in r)
-            badn = case["ploidy_arg"] is not None and (case["ploidy_arg"] * len(case["dos"])) in BAD_N
-            neutral = any(("count" in c or "freq" in c or "avail" in c or "fixed" in c) for c in clauses)
-            recip = any("bulmer[raw] is not NaN" in c for c in clauses)
-            if neutral and not recip and zero and not _pred_lin(case, out, asis=("L-neutral",)): return "C04-dlgm-neutral-alleles"
-            if recip and not neutral and badn and not _pred_lin(case, out, asis=("L-recip",)): return "C04-dlgm-reciprocal"
-            if recip and neutral and badn and zero and not _pred_lin(case, out, asis=("L-recip", "L-neutral")): return "C04-dlgm-neutral-alleles"
-    return None
+    return None          # no deviation of the prediction / variance / allele-statistic methods is excused
 
 def nontrivial(case, out):
     if "exc" in out: return False
@@ -888,7 +965,8 @@ def describe(case, out):
                   "phased_given": case["phased"] is not None, "taxa_labels": case["taxa"] is not None, "taxa_groups": case["taxa_grp"] is not None,
                   "effect_signs": "".join(sorted({"+" if x > 0 else ("-" if x < 0 else "0") for x in flat})),
                   "u_d": "n/a" if case["cls"] != "AD" else ("None" if case["u_d"] is None else "given"),
-                  "size_with_inexact_reciprocal": case["ploidy"] * n in BAD_N})
+                  "size_with_inexact_reciprocal": case["ploidy"] * n in BAD_N,
+                  "trait_scales": "ordinary" if not case.get("scaled") else "+".join(sorted(set(case["trait_kinds"]))) + " 2^%d" % case["scaled"][0][2]})
     elif case["kind"] == "gs":
         A = case["A"]; p = len(A)
         d.update({"unknowns": p, "maxiter": case["maxiter"], "atol": "0" if case["atol"] == 0 else ("<=2^-8" if case["atol"] <= 2 ** -8 else ">2^-8"),
@@ -896,6 +974,7 @@ def describe(case, out):
     else:
         Z = case["Z"]; p = len(Z[0]); mono = sum(all(r[j] == Z[0][j] for r in Z) for j in range(p))
         d.update({"via": case["via"], "ntraits": len(case["Y"][0]), "monomorphic_markers": mono, "well_determined": len(Z) > p - mono,
+                  "response_scale": "2^%d" % case.get("yscale", 0),
                   "rerun_in_coq": ("rr_rerun_agrees" in (emit_case(case, out) or "")) if "exc" not in out else False})
     return d
 
@@ -946,6 +1025,9 @@ def shrink(case, fails):
                 for key in ("beta", "u_a", "u_misc", "u_d", "Y"):
                     if c.get(key): c[key] = [r[:k] + r[k + 1:] for r in c[key]]
                 if c["trait"]: c["trait"] = c["trait"][:k] + c["trait"][k + 1:]
+                if c.get("scaled") is not None:
+                    c["scaled"] = [[a - (a > k), b - (b > k), e] for a, b, e in c["scaled"] if a != k and b != k]
+                    c["trait_kinds"] = c["trait_kinds"][:k] + c["trait_kinds"][k + 1:]
                 if attempt(c): changed = True; break
             if changed: continue
             for j in range(p if p > 1 else 0):                                            # drop a marker
